@@ -54,13 +54,21 @@ def job(args):
                 uid_mode = k % 13 == 6 and not none_mode and not xtype_mode and not classattr_mode
                 if uid_mode:
                     attrs = {}      # the attribute is the built-in `uid` property: exactly the 'M' vertex (first in name order) carries the sought uid
+                dotted_mode = k % 17 == 8 and not (none_mode or xtype_mode or classattr_mode or uid_mode)      # the attribute's name contains a dot
+                nest_mode = k % 19 == 9 and not (none_mode or xtype_mode or classattr_mode or uid_mode or dotted_mode)   # the attribute is a property that itself searches
+                attr_name = "net.role" if dotted_mode else ATTR
+                if dotted_mode:
+                    attrs = {v: {attr_name: a_[ATTR]} if a_ else {} for v, a_ in attrs.items()}
+                if nest_mode:
+                    vcls = "NestVert"
+                    attrs = {v: {"_tagv": a_[ATTR]} if a_ else {} for v, a_ in attrs.items()}
                 if classattr_mode:
                     vcls = "ClassTagVert"
                     pat = {v: ("N" if p == "L" else p) for v, p in pat.items()}
                     attrs = {v: ({} if p == "M" else {ATTR: Tok(2, "stored-other")}) for v, p in pat.items()}
                 for tname, (mod, lst, gen, srch) in trav.TRAVS.items():
                     n += 1
-                    rec = dict(map={v: list(l) for v, l in nbmap.items()}, universe=members, trav=tname, search=srch, pattern=pat, vcls=vcls, sought_none=none_mode, mode=("sought-None" if none_mode else ("int-vs-float" if xtype_mode else ("class-level-attribute" if classattr_mode else ("uid-property" if uid_mode else "token")))))
+                    rec = dict(map={v: list(l) for v, l in nbmap.items()}, universe=members, trav=tname, search=srch, pattern=pat, vcls=vcls, sought_none=none_mode, mode=("sought-None" if none_mode else ("int-vs-float" if xtype_mode else ("class-level-attribute" if classattr_mode else ("uid-property" if uid_mode else ("attribute-name-with-a-dot" if (k % 17 == 8 and not (none_mode or xtype_mode or classattr_mode or uid_mode)) else ("property-that-searches" if vcls == "NestVert" else "token")))))))
                     try:
                         if tname not in listings:
                             V = th.setup(nbmap, members, "Vertex", None)
@@ -78,7 +86,12 @@ def job(args):
                             uidv = V[target].fields.get("_uid") if target else Tok(77, "no-such-uid")
                             so = th.h.call(th.fn[srch], th.uni, V["a"], "uid", uidv)
                         else:
-                            so = th.h.call(th.fn[srch], th.uni, V["a"], ATTR, sought)
+                            if nest_mode:
+                                th.h.sym["NestVert"].dict["probe"] = th.fn[srch]
+                            try:
+                                so = th.h.call(th.fn[srch], th.uni, V["a"], attr_name, sought)
+                            finally:
+                                th.h.sym["NestVert"].dict["probe"] = None
                     except Unknown as u:
                         rec.update(kind="nonterm" if "budget" in str(u) else "undecided", got=str(u))
                         recs.append(rec)
